@@ -233,7 +233,9 @@ SpacesJudged(s) ==
              /\ s[l] \in Digit /\ s[r] \in Digit
              /\ \A m \in (l+1)..(r-1) : s[m] = " ")
 
-SelectP(a, b, idx) == \E n \in 0..64 : idx = a * n + b
+\* "idx = a*n + b for some n >= 0": any witness satisfies n <= idx + |b| (|a| >= 1 when n matters)
+AbsV(x) == IF x < 0 THEN -x ELSE x
+SelectP(a, b, idx) == \E n \in 0..(idx + AbsV(b)) : idx = a * n + b
 
 AnBOK(s, maxIdx) ==
     SpacesJudged(s) =>
